@@ -93,7 +93,9 @@ PROPS = {
         'search_groups': ['seq'],
         'bounded_search': [('seq', 'all SEQUENCE shapes with n <= 4 components x kinds {mandatory, OPTIONAL, DEFAULT} x marker position x all presence patterns through the real Writer/Reader API against an X.691 reference encoding; cross-version pairs with up to 5 components')],
         'assumptions': [
-            'generated write_seq/read_seq call the presence protocol exactly once per component, in declaration order, and write/read the component payload in between (text emission of walker.rs; modelled by append_payload / consume_payload: arbitrary appends / cursor advances)',
+            'unit uper proves that the real write_sequence / read_sequence enter the generated glue in exactly the state the drivers start from: scope == wscope_built / rscope_built over the constants of the Constraint, cursor directly behind the preamble, '
+            'every preamble bit zero (writer) / the extension bit as found in the input (reader); lemma_built_is_wroot / lemma_built_is_rroot identify these with the drivers\' root scopes',
+            'ASSUMED: the generated write_seq/read_seq call the presence protocol exactly once per component, in declaration order, and write/read the component payload in between (text emission of walker.rs; modelled by append_payload / consume_payload: arbitrary appends / cursor advances)',
             'the constants STD_OPTIONAL_FIELDS / FIELD_COUNT / EXTENDED_AFTER_FIELD of the generated code describe the shape (shape_ok, wscope_root / rscope_root)',
             'contracts of BitBuffer / PackedWrite / PackedRead are assumed in unit scope and proved in units bits / per (same sidecar text)',
         ],
